@@ -278,6 +278,9 @@ func (s *sim) setup() {
 	// genesis node
 	g := &Node{ID: 0, Parent: -1, H: Hdr{Height: res.Genesis}, Trunk: true, Set: ps}
 	g.st = drv.NewNodeOn(s.db, suffix(0), s.mod, false)
+	// read through drv.TidyReader (same pebble instance, closes its iterators): a scenario makes
+	// ~10^4 range reads over hundreds of forked states, see the comment on TidyReader
+	g.st.Tidy = true
 	if err := g.st.Genesis(res.Genesis); err != nil {
 		res.Err = err
 		return
